@@ -11,10 +11,10 @@ FUNCS = ["data:TimePoint.__init__", "ghost:dump_fields_recompose", "ghost:timepo
 QUICK_FILTER = {"ghost:timepoint_text_round_trip": lambda c: c != "week-x2"}
 LEMMAS = ["wiy.range", "opaque.dby.step", "opaque.dby.range"]
 CANARIES = ["canary.week52"]
-EXPLANATION = ("PROVED for whole-second points (hh:mm:ss form, incl. 24:00:00) in all three date representations, plain and signed expanded years, every UTC offset: the REAL default dump format (TimePoint._get_dump_format), the REAL dumper (TimePointDumper.dump -> _get_expression_and_properties -> _dump_expression_with_properties, incl. the re-zoning to the literal zone) and the REAL parser EXECUTED and composed on a symbolic point - the formatted text is a piecewise Text with digit fields (%0Nd of a value proved to fit), the format-string substitutions are the real rec.sub calls (digit-blind patterns, pyvc/textlex.text_sub), parsing as in C07 - parse(str(p)) has exactly p's field values, representation and offset, equals p, and dumps to the same text (ghost program timepoint_text_round_trip); constructor contracts; memoisation soundness of dumper/parser caches (a cache keyed without an input it depends on is refuted). BOUNDED: str/parse round trip on a grid of TimePoints (3 representations, 5 precision forms incl. 24:00 and decimals, 12 offsets, year boundaries, expanded years) and 5 custom complete formats.")
+EXPLANATION = ("PROVED for whole-second points (hh:mm:ss form, incl. 24:00:00) in all three date representations, plain and signed expanded years, every UTC offset: the REAL str(p) (TimePoint.__str__ -> shared dumper map -> TimePoint._get_dump_format -> TimePointDumper.dump -> _get_expression_and_properties -> _dump_expression_with_properties, incl. the re-zoning to the literal zone) and the REAL parser EXECUTED and composed on a symbolic point - the formatted text is a piecewise Text with digit fields (%0Nd of a value proved to fit), the format-string substitutions are the real rec.sub calls (digit-blind patterns, pyvc/textlex.text_sub), parsing as in C07 - parse(str(p)) has exactly p's field values, representation and offset, equals p, and dumps to the same text (ghost program timepoint_text_round_trip); constructor contracts; memoisation soundness of dumper/parser caches (a cache keyed without an input it depends on is refuted). BOUNDED: str/parse round trip on a grid of TimePoints (3 representations, 5 precision forms incl. 24:00 and decimals, 12 offsets, year boundaries, expanded years) and 5 custom complete formats.")
 ASSUMPTIONS = ["decimal hour/minute/second forms (\"%0.6f\" float formatting) and custom formats: bounded grid only",
                "%0Nd of an int in 0..10^N-1 prints its N-digit spelling (CPython axiom); blindness lemma and split lemma of pyvc/textlex.py (prose, hypotheses machine-checked)",
-               "TimePoint.__str__'s 4-line dispatch to dumper.dump(self, self._get_dump_format()) is taken as read (the ghost program calls those two directly); the shared dumper map is a cache (C15 obligations)"]
+               "the shared dumper map TIMEPOINT_DUMPER_MAP holds the dumpers the real module built at import (read from the imported module); it is a cache (C15 obligations)"]
 LEVEL_TEXT = "Whole-second default-format round trip: proof (real dump and parse executed symbolically); decimal forms and custom formats: bounded grid. Hence other."
 LEVEL_NOTE = "see DESIGN section 5/C08"
 
